@@ -641,7 +641,8 @@ impl<'a> Renderer<'a> {
         cs.sort();
         cs.dedup();
         for c in cs {
-            self.out += &format!("const {}: {} = {};\n", const_name(self.prefix, c), self.int_ty, int_expr(c, self.int_ty));
+            // a constant initialiser must be a (possibly negated) literal
+            self.out += &format!("const {}: {} = {};\n", const_name(self.prefix, c), self.int_ty, int_pat_src(c, 'd', self.int_ty));
         }
     }
 
